@@ -50,8 +50,14 @@ def run_diff(chk, progs, label, mode="vm", repeat=1, inputs=None, rng_layout=Non
         cases.append(c)
         terms.append(em.program(p, ins))
         texts.append(txt)
-    outs = core.harness("sem", "run", cases, timeout_ms=8000)
     model = core.coq_run_cases(tag + label, G.IMPORTS, G.RUN_FN, terms, case_ty=G.CASE_TY, shard=150)
+    # programs on which the model runs out of fuel (non-terminating, or too long) are outside the quantifier: they are not
+    # handed to the interpreter at all (it would run into its time limit, and the confirmation of a hang takes ten times longer)
+    live = [k for k, m in enumerate(model) if m[0][0] != 7]
+    outs_live = core.harness("sem", "run", [cases[k] for k in live], timeout_ms=8000)
+    outs = [{"skipped": True}] * len(cases)
+    for k, o in zip(live, outs_live):
+        outs[k] = o
     ids = cls_ids(names)
     bad = []
     for k, (o, m) in enumerate(zip(outs, model)):
